@@ -72,4 +72,27 @@ structure WellFormed (ws : List WriteOp) (n : Nat) (rs : List ReadOp) : Prop whe
   rw_distinct : ∀ r ∈ rs, ∀ k, 1 ≤ k → k ≤ n → r.ret ≠ wcall ws k ∧ r.call ≠ wret ws k
   rr_distinct : ∀ r1 ∈ rs, ∀ r2 ∈ rs, r1.ret ≠ r2.call
 
+/-! ### reads that pin the cache to a range of states (Get) -/
+
+/-- a read whose answer is consistent with the states `lo..hi` only (a `List()` has `lo = hi`; a `Get` is consistent
+with every state in which the key has the returned version) -/
+structure RangeRead where
+  call : Nat
+  ret : Nat
+  lo : Nat
+  hi : Nat
+
+/-- an atomic cache assigns to every read one state it actually read: inside its range, and never older than what a
+read that had already returned before this one was invoked was given -/
+def ValidAssign (items : List RangeRead) (s : RangeRead → Nat) : Prop :=
+  (∀ x ∈ items, x.lo ≤ s x ∧ s x ≤ x.hi) ∧ (∀ x ∈ items, ∀ y ∈ items, y.ret < x.call → s y ≤ s x)
+
+/-- is `(y, x)` a backwards pair: `y` returned before `x` was invoked, yet everything `x` may have read is older than
+everything `y` may have read -/
+def backwards (y x : RangeRead) : Bool := decide (y.ret < x.call) && decide (x.hi < y.lo)
+
+/-- search for a backwards pair (quadratic; the driver runs it only to confirm what its linear sweep found) -/
+def backwardsPair (items : List RangeRead) : Option (RangeRead × RangeRead) :=
+  items.findSome? fun x => (items.find? fun y => backwards y x).map fun y => (y, x)
+
 end KC.Lin
